@@ -103,7 +103,7 @@ PROPS = {
     'C02': dict(
         title='Hayson encode -> decode returns the original value',
         verus=[('u_getters', [r'^parse_ref$', r'^parse_symbol$', r'^parse_uri$', r'^parse_coord$'])],
-        kani=[dict(harness='k_json_visit_numbers', klass='complete', schema=None, family=None, target='JsonValueDecoderVisitor::visit_{i8..u64,f64}'),
+        kani=[dict(harness='k_json_visit_numbers', klass='complete', schema='raw', family='json-visit', target='JsonValueDecoderVisitor::visit_{i8..u64,f64}'),
               dict(harness='k_json_visit_bool_null', klass='complete', schema=['bool'], family=None, target='JsonValueDecoderVisitor::visit_bool/visit_unit'),
               dict(harness='k_json_number_exact', klass='complete', schema=['f64'], family='json-number', target='<Number as Serialize>::serialize'),
               dict(harness='k_json_number_unit_trace', klass='complete', schema=['f64'], family='json-number', target='<Number as Serialize>::serialize (with unit)')],
@@ -122,7 +122,7 @@ PROPS = {
     'C05': dict(
         title='Hayson JSON conforms to the Project Haystack JSON encoding',
         verus=[('u_getters', [r'^parse_ref$', r'^parse_symbol$', r'^parse_uri$', r'^parse_coord$', r'^Dict::get_str$', r'^Dict::get_num$'])],
-        kani=[dict(harness='k_json_visit_numbers', klass='complete', schema=None, family=None, target='JsonValueDecoderVisitor::visit_{i8..u64,f64}'),
+        kani=[dict(harness='k_json_visit_numbers', klass='complete', schema='raw', family='json-visit', target='JsonValueDecoderVisitor::visit_{i8..u64,f64}'),
               dict(harness='k_json_visit_bool_null', klass='complete', schema=['bool'], family=None, target='JsonValueDecoderVisitor::visit_bool/visit_unit'),
               dict(harness='k_json_scalar_traces', klass='complete', schema=['u8', 'f64', 'f64'], family=None, target='Serialize for Marker/Na/Remove/Coord/Symbol/Uri/Ref/XStr'),
               dict(harness='k_json_number_exact', klass='complete', schema=['f64'], family='json-number', target='<Number as Serialize>::serialize'),
@@ -183,9 +183,9 @@ PROPS = {
         title='Every database unit is found by each of its names and survives both codecs',
         verus=[('u_units', [r'^lemma_units_table_chunk_', r'^lemma_unit_ids_bound_chunk_', r'^lemma_table_keys_are_ids_chunk_']),
                ('u_zparse', [r'^parse_unit$', r'^is_unit_char$', r'^parse_number$'])],
-        kani=[dict(harness='k_unit_char_class', klass='complete', schema=['u8'], family=None, target='zinc number::is_unit_char'),
+        kani=[dict(harness='k_unit_char_class', klass='complete', schema='raw', family='enum:units-roundtrip', target='zinc number::is_unit_char'),
               dict(harness='k_scanner_classes', klass='complete', schema=['u8'], family=None, target='Scanner::is_*')],
-        witness=None,
+        witness='enum:units-roundtrip',
         design_ref='DESIGN.md section 4, C15',
         level_text=('Proof over the unit table extracted mechanically from units_generated.rs on every run (Verus by(compute)): the '
                     'identifiers bound in the UNITS map are pairwise distinct (strictly increasing when sorted), every identifier of every '
